@@ -79,6 +79,11 @@ func (in *Interp) jsonEncode(t types.Type, v Value) *OTerm {
 	switch u := t.Underlying().(type) {
 	case *types.Basic:
 		switch {
+		case u.Info()&types.IsFloat != 0:
+			if f, ok := v.R.(*floatV); ok {
+				return ot("num", true, f.v) // an integral float64: the rounded integer
+			}
+			unsupported("json.Marshal of a non-integral float")
 		case u.Info()&types.IsString != 0:
 			return ot("str", in.coerceUTF8(v))
 		case u.Info()&types.IsBoolean != 0:
@@ -172,6 +177,8 @@ func (in *Interp) coerceUTF8(v Value) *OTerm {
 	rune32 := func(x uint64) Value { return mkInt(x, 32) }
 	for _, sg := range r.Segs {
 		switch {
+		case sg.Opq != nil && sg.Opq.Ctor == "jsonstr":
+			args = append(args, sg.Opq.Args[0].(*OTerm).Args...) // a string decoded from JSON: the same runes again
 		case sg.Opq != nil:
 			args = append(args, sg.Opq)
 		case sg.Atom != nil:
@@ -244,5 +251,251 @@ func (in *Interp) coerceUTF8(v Value) *OTerm {
 func init() {
 	intrinsics["encoding/json.Marshal"] = func(in *Interp, fr *Frame, a []Value) (Value, bool) {
 		return tuple(opqBytes(in.jsonMarshal(a[0])), nilErr), true
+	}
+}
+
+// ---- json.Unmarshal: inverse of the document model -------------------------------------------------
+//
+// Into interface{} ("generic" decoding): objects become map[string]interface{}, lists []interface{},
+// strings string, booleans bool, null nil and - as encoding/json documents - every number becomes a
+// float64. Floats are not supported in general by this engine; the one thing modelled is an INTEGRAL
+// float64 obtained from an integer: its value is the integer rounded to 53 bits of mantissa (round half
+// to even), as a bit-vector term. Re-marshalling such a float yields a number leaf with the rounded value.
+// Into structs: by json tags (missing -> zero value, unknown keys ignored, null -> nil).
+
+type floatV struct{ v Value } // an integral float64: v is the (already rounded) value as a 64-bit integer
+
+var (
+	tIface    = types.NewInterfaceType(nil, nil)
+	tMapSI    = types.NewMap(types.Typ[types.String], tIface)
+	tSliceI   = types.NewSlice(tIface)
+	tFloat64  = types.Typ[types.Float64]
+	tString   = types.Typ[types.String]
+	tBool     = types.Typ[types.Bool]
+)
+
+// round53 rounds a 64-bit integer to the nearest value representable in a float64 (ties to even).
+func (in *Interp) round53(v Value, signed bool) Value {
+	if v.R == nil {
+		var f float64
+		if signed {
+			f = float64(sextW(v.N, 64))
+			if f >= 9.223372036854775807e18 {
+				return mkInt(uint64(1)<<63-1, 64) // saturate (cannot be represented back; outside the uses here)
+			}
+			return mkInt(uint64(int64(f)), 64)
+		}
+		f = float64(v.N)
+		if f >= 1.8446744073709552e19 {
+			return mkInt(^uint64(0), 64)
+		}
+		return mkInt(uint64(f), 64)
+	}
+	c := in.Ctx
+	x := v.R.(*smt.Term)
+	zero := c.BV(0, 64)
+	neg := c.F
+	a := x
+	if signed {
+		neg = c.Cmp(smt.OpSLt, x, zero)
+		a = c.Ite(neg, c.Un(smt.OpNeg, x), x)
+	}
+	res := a
+	for s := uint64(1); s <= 11; s++ {
+		lo := c.BV(uint64(1)<<(52+s), 64)
+		q := c.Bin(smt.OpLShr, a, c.BV(s, 64))
+		rem := c.Bin(smt.OpAnd, a, c.BV((uint64(1)<<s)-1, 64))
+		half := c.BV(uint64(1)<<(s-1), 64)
+		odd := c.Cmp(smt.OpEq, c.Bin(smt.OpAnd, q, c.BV(1, 64)), c.BV(1, 64))
+		up := c.Or(c.Cmp(smt.OpULt, half, rem), c.And(c.Cmp(smt.OpEq, rem, half), odd))
+		rq := c.Ite(up, c.Bin(smt.OpAdd, q, c.BV(1, 64)), q)
+		rounded := c.Bin(smt.OpShl, rq, c.BV(s, 64))
+		res = c.Ite(c.Cmp(smt.OpULe, lo, a), rounded, res) // a later (larger s) range overrides an earlier one
+	}
+	if signed {
+		res = c.Ite(neg, c.Un(smt.OpNeg, res), res)
+	}
+	return mkSymInt(res)
+}
+
+func ifaceOf(t types.Type, v Value) Value { return Value{K: KIface, R: &IfaceV{T: t, V: v}} }
+
+// jsonGeneric decodes a document into the generic Go representation.
+func (in *Interp) jsonGeneric(d *OTerm) Value {
+	switch d.Ctor {
+	case "null":
+		return Value{K: KIface}
+	case "bool":
+		return ifaceOf(tBool, d.Args[0].(Value))
+	case "num":
+		return ifaceOf(tFloat64, Value{K: KOpaque, R: &floatV{v: in.round53(d.Args[1].(Value), d.Args[0].(bool))}})
+	case "str":
+		return ifaceOf(tString, in.stringOfRunes(d.Args[0].(*OTerm)))
+	case "list":
+		out := make([]Value, len(d.Args))
+		for i, a := range d.Args {
+			out[i] = in.jsonGeneric(a.(*OTerm))
+		}
+		return ifaceOf(tSliceI, Value{K: KSlice, R: &SliceV{S: out}})
+	case "obj":
+		m := newMap()
+		for i := 0; i+1 < len(d.Args); i += 2 {
+			k := mkStr(d.Args[i].(string))
+			ks, _ := keyOf(k)
+			m.set(ks, k, in.jsonGeneric(d.Args[i+1].(*OTerm)))
+		}
+		return ifaceOf(tMapSI, Value{K: KMap, R: m})
+	}
+	unsupported("json: generic decoding of %s", d.Ctor)
+	return Value{}
+}
+
+// stringOfRunes: the Go string a JSON string leaf decodes to. Concrete runes are re-encoded; a leaf with
+// symbolic runes stays an opaque string that re-marshals to exactly the same rune sequence.
+func (in *Interp) stringOfRunes(r *OTerm) Value {
+	var b []rune
+	for _, a := range r.Args {
+		v, ok := a.(Value)
+		if !ok || v.R != nil {
+			return opqStr(ot("jsonstr", r))
+		}
+		b = append(b, rune(v.N))
+	}
+	return mkStr(string(b))
+}
+
+func (in *Interp) jsonDecodeInto(d *OTerm, t types.Type) Value {
+	fail := func(msg string) { panic(cborErr{in.newErr("json: "+msg, Value{})}) }
+	if d.Ctor == "null" {
+		return zero(t)
+	}
+	if n, ok := types.Unalias(t).(*types.Named); ok && n.Obj().Pkg() != nil && n.Obj().Pkg().Path() == "github.com/ipfs/go-cid" && n.Obj().Name() == "Cid" {
+		// cid.Cid.UnmarshalJSON: {"/": "<text>"}
+		if d.Ctor == "obj" && len(d.Args) == 2 && d.Args[0].(string) == "/" {
+			if s := d.Args[1].(*OTerm); s.Ctor == "str" {
+				r := in.cidFromText(in.stringOfRunesOrAtom(s.Args[0])).R.([]Value)
+				if r[1].R != nil {
+					panic(cborErr{r[1]})
+				}
+				return r[0]
+			}
+		}
+		fail("not a cid link object")
+	}
+	switch u := t.Underlying().(type) {
+	case *types.Interface:
+		return in.jsonGeneric(d)
+	case *types.Basic:
+		switch {
+		case u.Info()&types.IsString != 0:
+			if d.Ctor != "str" {
+				fail("expected string")
+			}
+			return in.stringOfRunesOrAtom(d.Args[0])
+		case u.Info()&types.IsBoolean != 0:
+			if d.Ctor != "bool" {
+				fail("expected bool")
+			}
+			return d.Args[0].(Value)
+		case u.Info()&types.IsInteger != 0:
+			if d.Ctor != "num" {
+				fail("expected number")
+			}
+			v := d.Args[1].(Value)
+			w, _, _ := intInfo(u)
+			if v.W != w {
+				return in.convert(types.Typ[types.Int64], t, v)
+			}
+			return v
+		}
+	case *types.Pointer:
+		p := new(Value)
+		*p = in.jsonDecodeInto(d, u.Elem())
+		return Value{K: KPtr, R: p}
+	case *types.Slice:
+		if d.Ctor != "list" {
+			fail("expected list")
+		}
+		out := make([]Value, len(d.Args))
+		for i, a := range d.Args {
+			out[i] = in.jsonDecodeInto(a.(*OTerm), u.Elem())
+		}
+		return Value{K: KSlice, R: &SliceV{S: out}}
+	case *types.Struct:
+		if d.Ctor != "obj" {
+			fail("expected object")
+		}
+		out := zero(t)
+		fs := out.R.([]Value)
+		for i := 0; i+1 < len(d.Args); i += 2 {
+			key := d.Args[i].(string)
+			for k := 0; k < u.NumFields(); k++ {
+				name, _, skip := jsonTag(u.Field(k), u.Tag(k))
+				if !skip && u.Field(k).Exported() && strings.EqualFold(name, key) {
+					fs[k] = in.jsonDecodeInto(d.Args[i+1].(*OTerm), u.Field(k).Type())
+				}
+			}
+		}
+		return out
+	}
+	fail("cannot decode into " + t.String())
+	return Value{}
+}
+
+func (in *Interp) stringOfRunesOrAtom(a interface{}) Value {
+	switch x := a.(type) {
+	case *OTerm:
+		if x.Ctor == "runes" {
+			if len(x.Args) == 1 {
+				if at, ok := x.Args[0].(*OTerm); ok && at.Ctor == "atom" {
+					return atomStr(at.Args[0].(*Atom), at.Args[1].(string))
+				}
+				if o, ok := x.Args[0].(*OTerm); ok {
+					return opqStr(o)
+				}
+			}
+			return in.stringOfRunes(x)
+		}
+		if x.Ctor == "atom" {
+			return atomStr(x.Args[0].(*Atom), x.Args[1].(string))
+		}
+		return opqStr(x)
+	}
+	return mkStr("")
+}
+
+func init() {
+	intrinsics["encoding/json.Unmarshal"] = func(in *Interp, fr *Frame, a []Value) (Value, bool) {
+		t, ok := opaqueOfBytes(a[0])
+		if !ok || t.Ctor != "json" {
+			return in.newErr("json: not a JSON document", Value{}), true
+		}
+		if a[1].R == nil {
+			return in.newErr("json: Unmarshal(nil)", Value{}), true
+		}
+		iv := a[1].R.(*IfaceV)
+		pt, ok := iv.T.Underlying().(*types.Pointer)
+		if !ok || iv.V.R == nil {
+			return in.newErr("json: Unmarshal(non-pointer)", Value{}), true
+		}
+		var res Value
+		err := func() (err Value) {
+			defer func() {
+				if r := recover(); r != nil {
+					if ce, ok := r.(cborErr); ok {
+						err = ce.err
+						return
+					}
+					panic(r)
+				}
+			}()
+			res = in.jsonDecodeInto(t.Args[0].(*OTerm), pt.Elem())
+			return Value{K: KIface}
+		}()
+		if err.R != nil {
+			return err, true
+		}
+		*(iv.V.R.(*Value)) = res
+		return nilErr, true
 	}
 }
